@@ -11,22 +11,27 @@ Python → Lean
                                                         `State.atexit` for this manager)
   `__init__` / `set_current_context` / `register_new_context` / `register_folder_finalizer`
                                                       : `newManager`, `setCurrentContext`, `registerNewContext`
-  `resolve_temp_folder_name`                          : `(workers.mgr, manager.current)` in `reduce`
-  `_clean_temporary_resources(context_id, force, allow_non_empty)` : `cleanContext`; `context_id=None` : `cleanAll`
-  `delete_folder(folder, allow_non_empty)` (joblib/disk.py) : the `remaining.isEmpty || allow` test + `clientRmtree`
-                                                        (the retry loop with its sleeps = "the tracker has caught up")
+  `resolve_temp_folder_name`                          : `(workers.mgr, currentOf …)` in `reduceArray`
+  `_clean_temporary_resources(context_id, force, allow_non_empty)` : `cleanContext` (loop body `cleanFile` =
+                                                        `forceUnregister` | `releaseExtra`); `context_id=None` : `cleanAll`
+  `delete_folder(folder, allow_non_empty)` (joblib/disk.py) and the rest of the `try:` : `tryDeleteFolder`
+                                                        (`clientRmtree`, `forgetFolder`; the retry loop with its sleeps =
+                                                        "the tracker has caught up")
   the atexit callback `_cleanup`                      : `atexitCleanup`
-  `ArrayMemmapForwardReducer.__call__`                : `reduceArray` (`_temporary_memmaped_filenames` = `Workers.temporary`;
-                                                        `_memmaped_arrays`: the basename is a function of the array — the
-                                                        array's id; `_unlink_on_gc_collect` = `!Workers.pool`)
-  `load_temporary_memmap` + `add_maybe_unlink_finalizer` (worker) : `Op.load`, `finalizeHolding`
+  `ArrayMemmapForwardReducer.__call__`                : `reduceArray` → `memmapArray` (`mkdir`, `pickleFor`,
+                                                        `registerExtra`, `dumpFile`; `_temporary_memmaped_filenames` =
+                                                        `Workers.temporary`; `_memmaped_arrays`: the basename is a function
+                                                        of the array — the array's id; `_unlink_on_gc_collect` = `!pool`)
+  `load_temporary_memmap` + `add_maybe_unlink_finalizer` / `_log_and_unlink` (worker) : `Op.load`, `sendFinalizer`
 * `joblib/executor.py` `get_memmapping_executor`      : `getExecutor` (`_executor_args` = `executorArgs`)
   `MemmappingExecutor.terminate(kill_workers)`        : `terminateExecutor`
-* `joblib/externals/loky/reusable_executor.py` `get_reusable_executor` : inside `getExecutor` (`_executor` = `executor`)
-* `joblib/pool.py` `MemmappingPool.__init__/terminate` : `Op.poolConfigure`, `Op.poolTerminate`
+* `joblib/externals/loky/reusable_executor.py` `get_reusable_executor` : `reusableExecutor` (`_executor` = `executor`)
+* `joblib/pool.py` `MemmappingPool.__init__/terminate` : the `isPoolK` / `W.pool` branches of `Op.configure/terminate`
 * `joblib/_parallel_backends.py` `LokyBackend.configure/terminate/abort_everything` : `Op.configure/terminate/abort`
 * `joblib/parallel.py` `_batched_calls_reducer_callback` : the `setCurrentContext` at the head of `reduceArray`
 * `resource_tracker.register/unregister/maybe_unlink → _send` : `send` (`f"{cmd}:{name}:{rtype}\n"` = `reqLine`)
+* the probe (harness/c20_client_worker.py): stand-in worker processes (`children`: `spawn`, `load`, `drop`, `childExit`,
+  `childKill`), `shutdown` of an executor ends its workers (`endWorkers`), `exitParent` / `killParent`
 
 The world: one main process (several `Parallel` objects `k < nPar`, on the loky backend or — `k ∈ pools` — on the
 multiprocessing backend), its tracker (`reg`, stepped by `Tracker.step` on every line written), the temp root
@@ -381,30 +386,43 @@ def shutdownWorkers (s : State) (w : Nat) (kill : Bool) : State :=
 
 /-! ### executors and pools -/
 
-/-- `get_memmapping_executor(n_jobs, context_id=parallel._id, **args)` from `LokyBackend.configure` of `P[k]`. -/
-def getExecutor (s : State) (args : Args) (limit : Option Nat) (k : Nat) : State :=
-  let reuse := s.executorArgs.isNone || s.executorArgs == some args
-  let s := { s with executorArgs := some args }
-  let m := s.managers.length
-  let s := newManager s                                               -- manager = TemporaryResourcesManager(temp_folder)
-  let create (s : State) : State :=
-    { s with workers := s.workers ++ [⟨m, false, false, limit, []⟩], executor := some s.workers.length }
-  let s :=
-    match s.executor with
-    | none => create s
-    | some e =>
-      let sh := match s.workers[e]? with
-        | some W => W.shutdown
-        | none => true
-      if sh || !reuse then create (shutdownWorkers s e false) else s
+/-- A new `MemmappingExecutor` / `MemmappingPool` around manager `m` (its index = `workers.length` before). -/
+def createWorkers (s : State) (m : Nat) (pool : Bool) (limit : Option Nat) : State :=
+  { s with workers := s.workers ++ [⟨m, pool, false, limit, []⟩] }
+
+/-- `_executor = cls(…)`; `_executor._temp_folder_manager = manager` (the executor is new). -/
+def createExecutor (s : State) (m : Nat) (limit : Option Nat) : State :=
+  { (createWorkers s m false limit) with executor := some s.workers.length }
+
+/-- `executor._flags.shutdown` of `_executor`. -/
+def executorIsShutdown (s : Client) (e : Nat) : Bool :=
+  match s.workers[e]? with
+  | some W => W.shutdown
+  | none => true
+
+/-- `get_reusable_executor(…, reuse=reuse)`: the executor in place is kept when it can be; otherwise it is shut down
+(`kill_workers=False`) and a new one is built around the new manager `m`. -/
+def reusableExecutor (s : State) (reuse : Bool) (m : Nat) (limit : Option Nat) : State :=
+  match s.executor with
+  | none => createExecutor s m limit
+  | some e =>
+    if executorIsShutdown s.toClient e || !reuse then createExecutor (shutdownWorkers s e false) m limit else s
+
+/-- `_executor._temp_folder_manager.register_new_context(context_id)`; `self._workers = _executor`. -/
+def bindContext (s : State) (k : Nat) : State :=
   match s.executor with
   | none => s
   | some e =>
     match s.workers[e]? with
     | none => s
-    | some W =>
-      let s := registerNewContext s W.mgr (k + 1)                     -- _executor._temp_folder_manager.register_new_context
-      { s with backend := assocSet s.backend k e }
+    | some W => { (registerNewContext s W.mgr (k + 1)) with backend := assocSet s.backend k e }
+
+/-- `get_memmapping_executor(n_jobs, context_id=parallel._id, **args)` from `LokyBackend.configure` of `P[k]`. -/
+def getExecutor (s : State) (args : Args) (limit : Option Nat) (k : Nat) : State :=
+  let reuse := s.executorArgs.isNone || s.executorArgs == some args
+  let m := s.managers.length
+  let s := newManager { s with executorArgs := some args }            -- manager = TemporaryResourcesManager(temp_folder)
+  bindContext (reusableExecutor s reuse m limit) k
 
 /-- `MemmappingExecutor.terminate(kill_workers)`. -/
 def terminateExecutor (cfg : Cfg) (s : State) (w : Nat) (kill : Bool) : State :=
@@ -478,20 +496,27 @@ def memmapArray (s : State) (w : Nat) (f : FileKey) (pool wasKnown : Bool) : Sta
   let s := if wasKnown then s else registerExtra s f                  -- is_new_memmap
   dumpFile s f
 
+/-- `self._max_nbytes is not None and a.nbytes > self._max_nbytes`. -/
+def bigEnough (limit : Option Nat) (nbytes : Nat) : Bool :=
+  match limit with
+  | none => false
+  | some l => decide (l < nbytes)
+
+/-- `manager._current_context_id`. -/
+def currentOf (s : Client) (m : Nat) : Nat :=
+  match s.managers[m]? with
+  | some M => M.current
+  | none => 0
+
 /-- `ArrayMemmapForwardReducer.__call__(a)` while `P[k]` pickles a `BatchedCalls` for workers object `w`. -/
 def reduceArray (s : State) (k w : Nat) (a : ArrayDesc) : State :=
   match s.workers[w]? with
   | none => s
   | some W =>
     let s := if W.pool then s else setCurrentContext s W.mgr (k + 1) -- _batched_calls_reducer_callback
-    let big := match W.limit with
-      | none => false
-      | some l => decide (l < a.nbytes)
-    if a.memmapBacked || a.hasobject || !big then s                   -- _reduce_memmap_backed / pickled by value
+    if a.memmapBacked || a.hasobject || !bigEnough W.limit a.nbytes then s   -- _reduce_memmap_backed / pickled by value
     else
-      let ctx := match s.managers[W.mgr]? with
-        | some M => M.current
-        | none => 0
+      let ctx := currentOf s.toClient W.mgr
       if ctx ∉ cachedOf s.toClient W.mgr then s                       -- resolve_temp_folder_name: KeyError (unreachable)
       else memmapArray s w ⟨W.mgr, ctx, a.id⟩ W.pool (decide (⟨W.mgr, ctx, a.id⟩ ∈ W.temporary))
 
@@ -537,11 +562,9 @@ def exitParent (s : State) : State :=
 
 def parentStep (cfg : Cfg) (s : State) : Op → State × Status
   | .configure k =>
-    if isPoolK cfg k then
-      let m := s.managers.length
-      let s := newManager s                                           -- MemmappingPool.__init__
-      ({ s with workers := s.workers ++ [⟨m, true, false, cfg.maxNbytes, []⟩],
-                backend := assocSet s.backend k s.workers.length }, .ok)
+    if isPoolK cfg k then                                             -- MemmappingPool.__init__
+      ({ (createWorkers (newManager s) s.managers.length true cfg.maxNbytes) with
+            backend := assocSet s.backend k s.workers.length }, .ok)
     else (getExecutor s (.parity (k % 2)) cfg.maxNbytes k, .ok)
   | .spawn k =>
     match liveWorkers s.toClient k with
